@@ -104,7 +104,7 @@ var profRefCount = &Profile{
 	// (no Get inside visitors either: Get keeps its item referenced by design)
 	NestedKinds: []string{OpGetItem, OpGetItem, OpMin, OpMax, OpExist, OpVisit, OpSet, OpDel, OpEvict, OpEvict, OpSnap, OpSnapClose, OpFlush, OpSetColl, OpRmColl},
 	Kinds: []wk{{OpSet, 28}, {OpSetR, 3}, {OpDel, 10}, {OpGetItem, 6}, {OpExist, 2}, {OpMin, 3}, {OpMax, 3}, {OpVisit, 14}, {OpLen, 2}, {OpBlock, 2}, {OpRandom, 2},
-		{OpEvict, 8}, {OpFlush, 13}, {OpReopen, 7}, {OpSnap, 6}, {OpSnapClose, 5}, {OpSetColl, 3}, {OpClose, 1}, {OpBadSet, 1}, {OpRmColl, 2}, {OpRevert, 3}},
+		{OpEvict, 8}, {OpFlush, 13}, {OpReopen, 7}, {OpSnap, 6}, {OpSnapClose, 5}, {OpSetColl, 3}, {OpClose, 1}, {OpBadSet, 1}, {OpRmColl, 2}, {OpRevert, 3}, {OpCopyTo, 2}},
 }
 
 var profIter = &Profile{
